@@ -116,16 +116,20 @@ func OracleC15(r *SeqRun) []explore.Violation {
 				if ks != nil {
 					raw = ks.Value
 				}
-				if get(kb).Unknown {
-					continue
-				}
 				got, err := refmodel.DecodeFrame(raw)
 				if err != nil {
 					add("malformed-value", fmt.Sprintf("%s: key %d carries a malformed value frame %x: %v", where, kb, raw, err))
 					return vs
 				}
+				if get(kb).Unknown {
+					continue
+				}
 				if !get(kb).Equal(got) {
-					add("value-differs", fmt.Sprintf("%s: key %d carries value %s, a sequential interpreter computes %s", where, kb, got, get(kb)))
+					sig := "value-differs"
+					if c := st.Op.Cmd; c != nil && c.Type == 1 && c.Expried == 0 && c.ExpriedFlag&0x4440 == 0 && c.Data != nil && c.Flag&0x02 == 0 {
+						sig += "/re-entrant-lock-with-expiry-0"
+					}
+					add(sig, fmt.Sprintf("%s: key %d carries value %s, a sequential interpreter computes %s", where, kb, got, get(kb)))
 					return vs
 				}
 			}
@@ -372,6 +376,7 @@ func c15Specs(quick bool) []*SeqSpec {
 		)
 	}
 	a = append(a, op(1, U(0, 1, 2)), op(0, U(0, 1, 1)), op(1, withData(L(0, 1, 4, 5, 9, 0, 0), vs[7])), tick(2*sec))
+	a = append(a, op(0, withData(L(0, 1, 1, 0, 0, 1, 3), vs[3]))) // expiry 0: on a held key a re-entrant lock that adds no depth
 	d := 3
 	if !quick {
 		d = 4
